@@ -78,12 +78,10 @@ type point struct {
 
 type c03case struct {
 	Kind  string          `json:"kind"`
-	Bk    string          `json:"bk,omitempty"` // emitted cases: "rr" | "cdb" | "cdbsep" | "v1" | "v2"
 	Class string          `json:"class"`
 	Maps  []mapdef        `json:"maps"`
 	Nets  []subnet        `json:"nets"`
 	Q     query           `json:"q"`
-	O     *obs            `json:"o,omitempty"`   // emitted cases: the observation on backend Bk
 	Obs   map[string]*obs `json:"obs,omitempty"` // internal (parent <-> child): all backends
 	Pts   []point         `json:"pts,omitempty"` // rr kind, diagnostic only
 	File  string          `json:"file,omitempty"`
@@ -91,26 +89,61 @@ type c03case struct {
 
 var bkOrder = []string{"cdb", "cdbsep", "v1", "v2"}
 
-// emitCase writes one line per backend
-func emitCase(e *hlib.Emitter, c *c03case, only string) {
-	if c.Kind == "rr" {
-		o := *c
-		o.Bk = "rr"
-		o.O = c.Obs["rr"]
-		o.Obs = nil
-		e.Emit(&o)
+// what is written out: all clients of one subnet set (kind rr), or all queries of
+// one data file that select the same map, on one backend (kind db)
+type qobs struct {
+	Q     query  `json:"q"`
+	Class string `json:"class"`
+	O     *obs   `json:"o"`
+}
+
+type outcase struct {
+	Kind string   `json:"kind"`
+	Bk   string   `json:"bk"` // "rr" | "cdb" | "cdbsep" | "v1" | "v2"
+	Maps []mapdef `json:"maps"`
+	Nets []subnet `json:"nets"`
+	Qs   []qobs   `json:"qs"`
+}
+
+// emitGroups writes the cases of one subnet set / one data file
+func emitGroups(e *hlib.Emitter, cases []*c03case, only string) {
+	if len(cases) == 0 {
 		return
 	}
-	for _, b := range bkOrder {
-		if only != "" && only != b {
-			continue
+	c0 := cases[0]
+	if c0.Kind == "rr" {
+		o := &outcase{Kind: "rr", Bk: "rr", Maps: []mapdef{}, Nets: c0.Nets}
+		for _, c := range cases {
+			o.Qs = append(o.Qs, qobs{c.Q, c.Class, c.Obs["rr"]})
 		}
-		o := *c
-		o.Bk = b
-		o.O = c.Obs[b]
-		o.Obs = nil
-		o.File = ""
-		e.Emit(&o)
+		e.Emit(o)
+		return
+	}
+	f := &dbfile{maps: c0.Maps, nets: c0.Nets}
+	var order []string
+	groups := map[string][]*c03case{}
+	for _, c := range cases {
+		kind := int('8')
+		if c.Q.Path == "res" {
+			kind = int('M')
+		}
+		k := string(mapFor(f, kind, unpackLabels(hlib.Unints(c.Q.Name))))
+		if _, ok := groups[k]; !ok {
+			order = append(order, k)
+		}
+		groups[k] = append(groups[k], c)
+	}
+	for _, k := range order {
+		for _, b := range bkOrder {
+			if only != "" && only != b {
+				continue
+			}
+			o := &outcase{Kind: "db", Bk: b, Maps: c0.Maps, Nets: c0.Nets}
+			for _, c := range groups[k] {
+				o.Qs = append(o.Qs, qobs{c.Q, c.Class, c.Obs[b]})
+			}
+			e.Emit(o)
+		}
 	}
 }
 
@@ -535,6 +568,7 @@ func genRR(r *hlib.Rng, e *hlib.Emitter, nsets int) {
 		addrs := criticalAddrs(r, nets)
 		r.Shuffle(len(addrs), func(i, j int) { addrs[i], addrs[j] = addrs[j], addrs[i] })
 		budget := 40
+		var group []*c03case
 		for _, a := range addrs {
 			for _, p := range plensFor(r, nets, a) {
 				if budget <= 0 {
@@ -551,9 +585,10 @@ func genRR(r *hlib.Rng, e *hlib.Emitter, nsets int) {
 					c.Q.Fam = 1
 				}
 				runRR(c)
-				emitCase(e, c, "")
+				group = append(group, c)
 			}
 		}
+		emitGroups(e, group, "")
 	}
 }
 
@@ -679,6 +714,9 @@ func genFile(r *hlib.Rng, idx int) *dbfile {
 		if r.Chance(1, 12) {
 			labels = nil // root
 		}
+		if !wild && len(labels) > 0 && labels[0] == "*" {
+			wild, labels = true, labels[1:]
+		}
 		kk := key{int(k), strings.Join(labels, "."), wild}
 		if seen[kk] {
 			continue
@@ -722,6 +760,10 @@ func genFile(r *hlib.Rng, idx int) *dbfile {
 }
 
 func (f *dbfile) addMap(k byte, labels []string, wild bool, id []byte, upper bool) {
+	if !wild && len(labels) > 0 && labels[0] == "*" {
+		// the text form "*.rest" IS the wildcard declaration of rest
+		wild, labels = true, labels[1:]
+	}
 	f.maps = append(f.maps, mapdef{K: int(k), Name: hlib.Ints(packName(labels)), Wild: wild, ID: hlib.Ints(id)})
 	f.text += fmt.Sprintf("%c%s,%s\n", k, nameText(labels, wild, upper), oct(id))
 }
@@ -1083,7 +1125,7 @@ func sepChild(a *hlib.Args, cases []*c03case) error {
 	}
 	for _, c := range cases {
 		cc := *c
-		cc.Obs, cc.O, cc.Pts = nil, nil, nil
+		cc.Obs, cc.Pts = nil, nil
 		b, _ := json.Marshal(&cc)
 		f.Write(b)
 		f.Write([]byte("\n"))
@@ -1203,44 +1245,80 @@ func run(a *hlib.Args, e *hlib.Emitter) error {
 		if err != nil {
 			return err
 		}
-		var rrcases []*c03case
-		var order []*c03case
-		for _, m := range raw {
-			b, _ := json.Marshal(m)
-			c := &c03case{}
-			if err := json.Unmarshal(b, c); err != nil {
-				return err
-			}
-			c.Obs = nil
-			order = append(order, c)
-			if c.Kind == "rr" {
-				rrcases = append(rrcases, c)
-			} else {
-				if a.Extra != "cdbsep" || c.File == "" {
-					c.File = fileText(c)
+		if a.Extra == "cdbsep" {
+			// child: internal cases in, internal cases (with Obs) out
+			for _, m := range raw {
+				b, _ := json.Marshal(m)
+				c := &c03case{}
+				if err := json.Unmarshal(b, c); err != nil {
+					return err
 				}
+				c.Obs = nil
 				dbcases = append(dbcases, c)
 			}
+			for _, g := range groupByFile(dbcases) {
+				if err := runFileCases(a, g, true); err != nil {
+					return err
+				}
+			}
+			for _, c := range dbcases {
+				e.Emit(c)
+			}
+			return nil
 		}
-		for _, c := range rrcases {
-			runRR(c)
+		type unit struct {
+			bk    string
+			cases []*c03case
+		}
+		var units []unit
+		for _, m := range raw {
+			b, _ := json.Marshal(m)
+			oc := &outcase{}
+			if err := json.Unmarshal(b, oc); err != nil {
+				return err
+			}
+			u := unit{bk: oc.Bk}
+			if oc.Maps == nil {
+				oc.Maps = []mapdef{}
+			}
+			if oc.Nets == nil {
+				oc.Nets = []subnet{}
+			}
+			for _, qo := range oc.Qs {
+				c := &c03case{Kind: oc.Kind, Class: qo.Class, Maps: oc.Maps, Nets: oc.Nets, Q: qo.Q}
+				if oc.Kind == "rr" {
+					runRR(c)
+				} else {
+					c.File = fileText(c)
+					dbcases = append(dbcases, c)
+				}
+				u.cases = append(u.cases, c)
+			}
+			units = append(units, u)
 		}
 		for _, g := range groupByFile(dbcases) {
-			if err := runFileCases(a, g, a.Extra == "cdbsep"); err != nil {
+			if err := runFileCases(a, g, false); err != nil {
 				return err
 			}
 		}
-		if a.Extra != "cdbsep" && len(dbcases) > 0 {
+		if len(dbcases) > 0 {
 			if err := sepChild(a, dbcases); err != nil {
 				return err
 			}
 		}
-		for _, c := range order {
-			if a.Extra == "cdbsep" {
-				e.Emit(c) // child: all observations back to the parent
-			} else {
-				emitCase(e, c, c.Bk)
+		for _, u := range units {
+			if len(u.cases) == 0 {
+				// a group without queries: keep the line so that input and output correspond
+				e.Emit(&outcase{Kind: "db", Bk: u.bk, Maps: []mapdef{}, Nets: []subnet{}, Qs: []qobs{}})
+				continue
 			}
+			// one input line = one output line: all queries of the unit, whatever map they select
+			c0 := u.cases[0]
+			o := &outcase{Kind: c0.Kind, Bk: u.bk, Maps: c0.Maps, Nets: c0.Nets}
+			for _, c := range u.cases {
+				o.Qs = append(o.Qs, qobs{c.Q, c.Class, c.Obs[u.bk]})
+			}
+			e.Emit(o)
 		}
 		return nil
 	}
@@ -1275,8 +1353,8 @@ func run(a *hlib.Args, e *hlib.Emitter) error {
 	if err := sepChild(a, dbcases); err != nil {
 		return err
 	}
-	for _, c := range dbcases {
-		emitCase(e, c, "")
+	for _, g := range groupByFile(dbcases) {
+		emitGroups(e, g, "")
 	}
 	return nil
 }
